@@ -13,9 +13,13 @@ theorem step_str (n : Nat) (s : St) (o : Nat) (prev : Char) (b : List SItem) (re
   have hp := parseString_str b hok rest
   have hassoc : (bodyText b ++ ['"']) ++ rest = bodyText b ++ '"' :: rest := by simp
   rw [hassoc]
+  simp only [List.cons_append] at hp
+  generalize bodyText b ++ '"' :: rest = tl at hp ⊢
   obtain ⟨toks, cO, rO, rD⟩ := s
+  have hT : dflt.treatStrings = true := rfl
+  have hM : dflt.mergeStrings = false := rfl
   cases toks <;>
-    simp [stdStep, hp, tok1, push, dflt, Lx.value, Lx.text, Lx.skip, Lx.flag]
+    simp [stdStep, hp, hT, hM, tok1, push, Lx.value, Lx.text, Lx.skip, Lx.flag]
 
 theorem digit_ne2 (c : Char) (h : isDigit c = true) : c ≠ '#' ∧ c ≠ '\\' := by
   refine ⟨?_, ?_⟩ <;> (intro e; subst e; revert h; decide)
@@ -68,8 +72,11 @@ theorem step_num (n : Nat) (s : St) (o : Nat) (prev : Char) (x : Num) (rest : Li
     obtain ⟨h1, h2⟩ := digit_ne2 c hc
     have htext : x.text = c :: (ip' ++ x.fracText ++ x.expText) := by simp [Num.text, hipc]
     refine ⟨c, ip' ++ x.fracText ++ x.expText, htext, ?_⟩
-    have hl : c :: (ip' ++ x.fracText ++ x.expText ++ rest) = x.text ++ rest := by simp [htext]
-    simp [stdStep, h1, h2, hc, hl, hp, hv, tok1, dflt, Lx.value, Lx.text, Lx.skip, Lx.flag]
+    have hp' : parseNumber (c :: ((ip' ++ x.fracText ++ x.expText) ++ rest)) = .ok (x.text, rest) := by
+      rw [← List.cons_append, ← htext]; exact hp
+    generalize (ip' ++ x.fracText ++ x.expText) ++ rest = tl at hp' ⊢
+    have hT : dflt.treatNumbers = true := rfl
+    simp [stdStep, h1, h2, hc, hp', hv, hT, tok1, Lx.value, Lx.text, Lx.skip, Lx.flag]
 
 theorem take_length_sub {α} (a b : List α) : (a ++ b).take ((a ++ b).length - b.length) = a := by
   simp
@@ -82,7 +89,10 @@ theorem step_cxxcom (n : Nat) (s : St) (o : Nat) (prev : Char) (m : Marker) (ws1
   refine ⟨'/', '/' :: (m.text ++ (ws1 ++ t)), by simp [Lx.text], ?_⟩
   have hp := parseCxxComment_spec n s o m ws1 t hok
   simp only [List.append_nil]
-  simp [stdStep, hp, dflt, Lx.value, Lx.text, Lx.skip, Lx.flag, Nat.add_assoc]
+  generalize hbody : m.text ++ (ws1 ++ t) = body at hp ⊢
+  have hT : dflt.treatCxxComments = true := rfl
+  simp only [stdStep, hT, hp]
+  simp [Lx.value, Lx.text, Lx.skip, Lx.flag, ← hbody, Nat.add_assoc, Nat.add_comm, Nat.add_left_comm] <;> omega
 
 theorem step_ccom (n : Nat) (s : St) (o : Nat) (prev : Char) (m : Marker) (ws1 t ws2 rest : List Char)
     (hok : (Lx.ccom m ws1 t ws2).OK) : StepsTo n s o prev (.ccom m ws1 t ws2) rest := by
@@ -95,8 +105,16 @@ theorem step_ccom (n : Nat) (s : St) (o : Nat) (prev : Char) (m : Marker) (ws1 t
   have hl2 : '/' :: '*' :: (m.text ++ (ws1 ++ (t ++ (ws2 ++ ['*', '/'])))) ++ rest =
       '/' :: '*' :: (m.text ++ (ws1 ++ (t ++ (ws2 ++ ('*' :: '/' :: rest))))) := by simp
   rw [hl2] at htake
-  simp only [stdStep, dflt]
-  simp [hp, htake, Lx.value, Lx.text, Lx.skip, Lx.flag, Nat.add_assoc]
+  have htext : (Lx.ccom m ws1 t ws2).text = '/' :: '*' :: (m.text ++ (ws1 ++ (t ++ (ws2 ++ ['*', '/'])))) := by
+    simp [Lx.text]
+  have hlen : (Lx.ccom m ws1 t ws2).text.length = 2 + m.text.length + ws1.length + t.length + ws2.length + 2 := by
+    simp [htext] <;> omega
+  rw [htext] at hlen ⊢
+  generalize hbody : m.text ++ (ws1 ++ (t ++ (ws2 ++ ('*' :: '/' :: rest)))) = body at hp htake ⊢
+  generalize htx : '/' :: '*' :: (m.text ++ (ws1 ++ (t ++ (ws2 ++ ['*', '/'])))) = tx at htake hlen ⊢
+  have hT : dflt.treatCComments = true := rfl
+  simp only [stdStep, hT, hp, htake]
+  simp [Lx.value, Lx.skip, Lx.flag, hlen, Nat.add_assoc] <;> omega
 
 /-- every well-formed lexeme, followed by something it may be followed by, is read back as one token -/
 theorem step_lx (n : Nat) (s : St) (o : Nat) (prev : Char) (l : Lx) (rest : List Char)
